@@ -2,10 +2,14 @@
 package main
 
 import (
+	"bytes"
 	"encoding/json"
 	"fmt"
 	"math"
 	"math/rand"
+	"os"
+	"os/exec"
+	"path/filepath"
 	"strconv"
 	"strings"
 	"time"
@@ -15,10 +19,65 @@ import (
 	. "ottoh/lib"
 )
 
+// The work is done in a child process: a Go stack overflow inside otto (for
+// instance a serialisation that recurses without end) is fatal and cannot be
+// recovered by Guard.  The child leaves the index of the case in flight in
+// <out>/inflight.txt; when it dies the parent starts it again with that index
+// listed as crashed, and the (deterministic) rerun records "host process died"
+// (error class 9) as the observation of that case instead of executing it.
 func main() {
+	if os.Getenv("C11_CHILD") == "" {
+		out := ""
+		for i, a := range os.Args {
+			if a == "-out" && i+1 < len(os.Args) {
+				out = os.Args[i+1]
+			}
+		}
+		crashed := ""
+		for attempt := 0; attempt < 6; attempt++ {
+			cmd := exec.Command(os.Args[0], os.Args[1:]...)
+			cmd.Env = append(os.Environ(), "C11_CHILD=1", "C11_CRASHED="+crashed)
+			var tail bytes.Buffer
+			cmd.Stdout = os.Stdout
+			cmd.Stderr = &tail
+			err := cmd.Run()
+			if err == nil {
+				return
+			}
+			bs, rerr := os.ReadFile(filepath.Join(out, "inflight.txt"))
+			if rerr != nil || out == "" {
+				os.Stderr.Write(tail.Bytes())
+				os.Exit(2)
+			}
+			fmt.Fprintf(os.Stderr, "c11: child died (%v) on case %s: %.300s\n", err, strings.TrimSpace(string(bs)), tail.String())
+			crashed += strings.TrimSpace(string(bs)) + ","
+		}
+		os.Exit(2)
+	}
 	env := FromFlags("c11")
 	runC11(env)
 	env.Finish()
+}
+
+// run a script on the interpreter, unless an earlier attempt died on this very case
+func (g *gen) run(src string) Outcome {
+	if g.mark() {
+		return Outcome{Panic: "host process died on this input (fatal Go error, e.g. stack overflow)"}
+	}
+	return RunJS(g.vm, src)
+}
+
+// note the case in flight; true if it is one that killed an earlier attempt
+func (g *gen) mark() bool {
+	idx := strconv.Itoa(g.env.Count())
+	if g.crashed[idx] {
+		return true
+	}
+	if g.lastMark != idx {
+		g.lastMark = idx
+		_ = os.WriteFile(filepath.Join(g.env.Out, "inflight.txt"), []byte(idx), 0o644)
+	}
+	return false
 }
 
 type gen struct {
@@ -26,6 +85,8 @@ type gen struct {
 	r         *rand.Rand
 	vm        *otto.Otto
 	completed []*jsv // containers already generated in this case that may be referred to a second time
+	crashed   map[string]bool
+	lastMark  string
 }
 
 // ---------------------------------------------------------------- strings
@@ -500,7 +561,7 @@ func (g *gen) parseExpr(t []uint16, second string) (string, func()) {
 func (g *gen) caseParse(t []uint16, bucket string) {
 	src, prep := g.parseExpr(t, "")
 	prep()
-	o := RunJS(g.vm, src)
+	o := g.run(src)
 	var obs, show string
 	if ec := ErrClass(o); ec != 0 {
 		obs = fmt.Sprintf("(PErr %d)", ec)
@@ -515,7 +576,7 @@ func (g *gen) caseParse(t []uint16, bucket string) {
 // JSON.parse applied to a non-string first argument (ToString of it is the text)
 // or with a second argument that is not callable (ignored)
 func (g *gen) caseParseArg(argJS, second string, text []uint16) {
-	o := RunJS(g.vm, "JSON.parse("+argJS+second+")")
+	o := g.run("JSON.parse(" + argJS + second + ")")
 	var obs string
 	if ec := ErrClass(o); ec != 0 {
 		obs = fmt.Sprintf("(PErr %d)", ec)
@@ -540,6 +601,7 @@ var revivers = []string{
 	`Array.isArray(v)?v.length:v`,
 	`(v!==null&&typeof v==="object"&&!Array.isArray(v))?null:v`,
 	`(v===null||typeof v==="boolean")?undefined:v`,
+	`k===""?v:undefined`,
 }
 
 func (g *gen) caseRevive(t []uint16, rid int) {
@@ -556,7 +618,7 @@ func (g *gen) caseRevive(t []uint16, rid int) {
 	rev := fmt.Sprintf(", function(k,v){LOG(k,v,this[k]===v&&typeof k===\"string\");return %s}", revivers[rid])
 	src, prep := g.parseExpr(t, rev)
 	prep()
-	o := RunJS(g.vm, src)
+	o := g.run(src)
 	var obs string
 	if ec := ErrClass(o); ec != 0 {
 		obs = fmt.Sprintf("(RErr %d)", ec)
@@ -578,7 +640,7 @@ func (g *gen) caseRevDel(n int) {
 	}
 	b.WriteString("}")
 	src := fmt.Sprintf("Object.keys(JSON.parse('%s', function(k,v){return k===\"\"?v:undefined})).length", b.String())
-	o := RunJS(g.vm, src)
+	o := g.run(src)
 	k := int64(-1)
 	if ErrClass(o) == 0 {
 		k, _ = o.Val.ToInteger()
@@ -604,7 +666,7 @@ func (g *gen) caseOrder(n int) {
 	inOrder := true
 	var seen string
 	for trial := 0; trial < 8; trial++ {
-		o := RunJS(g.vm, "Object.keys(JSON.parse(T)).join(',')")
+		o := g.run("Object.keys(JSON.parse(T)).join(',')")
 		if ErrClass(o) != 0 || o.Val.String() != want {
 			inOrder = false
 			seen = o.Val.String()
@@ -624,7 +686,7 @@ type jsv struct {
 	keys  [][]uint16
 	k     int // toJSON family
 	inner *jsv
-	isArr bool // cyc: the ancestor referred to is an array
+	isArr bool   // cyc: the ancestor referred to is an array
 	name  string // variable holding the container once built
 	extra bool   // obj: also has an inherited enumerable and an own non-enumerable property (both invisible to JSON.stringify)
 }
@@ -1062,7 +1124,7 @@ func (g *gen) caseStringify(v *jsv, repJS, repCoq, spJS, spCoq, bucket string) {
 		pre = "try{" + call + "}catch(e){}"
 	}
 	src := "(function(){" + strings.Join(b.stmts, "") + pre + "return " + call + "})()"
-	o := RunJS(g.vm, src)
+	o := g.run(src)
 	g.env.Add(fmt.Sprintf("CStringify %s %s %s %s", v.coq(), repCoq, spCoq, g.sres(o)),
 		fmt.Sprintf("stringify %s -> %s", src, trunc(showS(o))), bucket, true)
 }
@@ -1072,7 +1134,7 @@ func (g *gen) caseMarshal(v *jsv) {
 	b := &builder{g: g, n: &n}
 	e := b.build(v)
 	src := "(function(){" + strings.Join(b.stmts, "") + "return " + e + "})()"
-	o := RunJS(g.vm, src)
+	o := g.run(src)
 	obs, show := "", ""
 	if ErrClass(o) != 0 {
 		obs, show = "(SErr 99)", "evaluation failed"
@@ -1086,6 +1148,9 @@ func (g *gen) caseMarshal(v *jsv) {
 					obs = "(SErr 9)"
 				}
 			}()
+			if g.mark() {
+				panic("host process died on this input")
+			}
 			bs, err = json.Marshal(o.Val)
 		}()
 		switch {
@@ -1103,7 +1168,7 @@ func (g *gen) caseMarshal(v *jsv) {
 func (g *gen) caseReprint(t []uint16) {
 	src, prep := g.parseExpr(t, "")
 	prep()
-	o := RunJS(g.vm, "JSON.stringify("+src+")")
+	o := g.run("JSON.stringify(" + src + ")")
 	g.env.Add(fmt.Sprintf("CReprint %s %s", Cunits(t), g.sres(o)), fmt.Sprintf("reprint JSON.stringify(JSON.parse(<%s>)) -> %s", showUnits(t), trunc(showS(o))), "reprint", true)
 }
 
@@ -1122,7 +1187,12 @@ func arr(xs ...*jsv) *jsv { return &jsv{kind: "arr", items: xs} }
 func runC11(env *Env) {
 	env.Import = "Otto.C11.Corr"
 	env.Rule = "JSON texts printed from random trees (all string unit classes, escapes in every spelling, number tokens over the whole double range incl. overflow/denormal/halfway digits, white space) and 14 kinds of mutation of them; JSON.parse with 7 revivers (call log + result); JSON.stringify of random JavaScript values (undefined/function/holes/wrappers/toJSON/cycles/non-finite) under replacer functions, property lists and space arguments; stringify(parse(t)); Go-side json.Marshal of values. Non-trivial = text longer than 4 units or any non-parse case; distinct by case text"
-	g := &gen{env: env, r: env.Rng, vm: otto.New()}
+	g := &gen{env: env, r: env.Rng, vm: otto.New(), crashed: map[string]bool{}}
+	for _, c := range strings.Split(os.Getenv("C11_CRASHED"), ",") {
+		if c != "" {
+			g.crashed[c] = true
+		}
+	}
 	r := g.r
 
 	// pinned witnesses of the listed findings, every run
@@ -1162,9 +1232,6 @@ func runC11(env *Env) {
 		case k < 48: // revivers
 			rid := r.Intn(len(revivers))
 			o := topt{intOnly: r.Intn(2) == 0}
-			if rid == 1 || rid == 2 || rid == 6 { // deleting revivers: keep objects at one member (otto's enumeration bug is pinned separately)
-				o.maxKeys = 1
-			}
 			t := g.jsonText(1+r.Intn(4), o)
 			if r.Intn(10) == 0 {
 				t = g.mutate(t)
@@ -1220,7 +1287,8 @@ func runC11(env *Env) {
 				if v.kind == "fun" || v.kind == "toj" || v.kind == "wnum" || v.kind == "wstr" || v.kind == "wbool" {
 					continue
 				}
-				if v.kind == "num" && (v.f == 0 || math.IsNaN(v.f) || math.IsInf(v.f, 0)) {
+				if v.kind == "num" && v.f == 0 && math.Signbit(v.f) { // Go prints -0, ES5 ToString(-0) is "0": not JSON.stringify's path
+
 					continue
 				}
 				break
